@@ -128,6 +128,26 @@ func ruleC15(w *World, r *Report) {
 		r.Check(n > 0, "C15.relayer/AuthRelayer.true", "MUST-PASS", fn, w.Pos(fi.Fn.Pos()), "has an accepting return", "AuthRelayer never accepts")
 	}
 
+	// the registry lookup reads exactly the entry of that chain name
+	if fi := k.method(pClientKeeper, "Keeper", "GetRelayers"); fi != nil {
+		ops := k.cg.Ops(fi.Fn)
+		var desc []string
+		exact := 0
+		for _, op := range ops {
+			desc = append(desc, op.String())
+			if op.Op == "Get" && op.Shape.Class() == "relayers" && strings.Join(op.Shape.HoleTerms(), ",") == P(2).String() {
+				exact++
+			}
+		}
+		r.Check(exact == 1 && len(ops) == 1, "C15.relayer/GetRelayers", "KEY-SHAPE", fnShort(fi), w.Pos(fi.Fn.Pos()),
+			"the relayer list is read from the single registry entry keyed by the chain name",
+			"the relayer list of a chain is not read from exactly the registry entry keyed by that chain name (store operations: "+strings.Join(desc, "; ")+")")
+		for _, rt := range fi.Returns() {
+			v := fi.T.Of(RetVal(rt.Instr, 0))
+			r.Check(strings.Contains(v.String(), ".Get($2)"), "C15.relayer/GetRelayers.result", "BIND", fnShort(fi), fi.InstrPos(rt.Instr), "result decoded from that entry", "result "+clip(v.String())+" is not decoded from the entry of the chain name")
+		}
+	}
+
 	// --- signer option in the proto files
 	k.signerOptionRule("C15.signer")
 
